@@ -416,6 +416,10 @@ func (p *Pebble) getCeiling(key string) (returnedKey string, value []byte, close
 }
 
 func (p *Pebble) getLower(key string) (returnedKey string, value []byte, closer io.Closer, err error) {
+	if key == "" {
+		// An empty UpperBound means "unbounded" to Pebble; nothing sorts below the empty key.
+		return "", nil, nil, pebble.ErrNotFound
+	}
 	it, err := p.db.NewIter(&pebble.IterOptions{
 		UpperBound: []byte(key),
 	})
